@@ -2,7 +2,9 @@
    (the network of endpoints, all delivery orders and all iteration orders). *)
 From Coq Require Import List Arith Bool PeanoNat.
 From Icv Require Import Route.RtModel Route.RtProofs Route.RtObs Route.RtOracleProofs Route.RtStepLemmas Route.RtLoad
-     Route.RtNet Route.RtFamilies Route.RtSched Route.RtNetSound Route.RtNetProofs.
+     Route.RtNet Route.RtFamilies Route.RtSched Route.RtNetSound Route.RtNetProofs
+     Route.RtInv Route.RtChain Route.RtChainSafe Route.RtChainComplete Route.RtTree Route.RtTreeSafe Route.RtTreeComplete Route.RtLine Route.RtLineSafe Route.RtLineComplete
+     Route.RtNetObs Route.RtNetObsProofs.
 Import ListNotations.
 
 (* ---- one relay step: ALL zone configurations, views, origins, iteration orders (unbounded) ---- *)
@@ -159,10 +161,11 @@ Proof.
 Qed.
 Print Assumptions C11_global_chains.
 
-(* ... and every tree of depth <= 3 with <= 2 children per zone, 1-2 endpoints per zone and at most 12 directly
-   related endpoint pairs (the bound that keeps the kernel evaluation at a few minutes) *)
+(* ... and every tree of depth <= 3 with <= 2 children per zone, 1-2 endpoints per zone and at most 10 directly
+   related endpoint pairs (the bound that keeps the kernel evaluation - and its re-evaluation by coqchk - at minutes;
+   C11_global_*_unbounded below has no bound at all) *)
 Theorem C11_global_trees : forall c links s lz nord,
-  In c rt_global_trees -> rt_pairs c <= 12 -> In links (rt_powerset (rt_related_pairs c)) ->
+  In c rt_global_trees -> rt_pairs c <= 10 -> In links (rt_powerset (rt_related_pairs c)) ->
   In s (flat_map rt_zeps c) -> rt_zone_of c s = Some lz -> rt_nord_ok c nord ->
   forall k st', rt_sched_run rt_msg (rt_effect c links (rt_gtarget c) nord) (rt_init c links (rt_gtarget c) nord s lz) k st' ->
     k < rt_fuel c /\
@@ -174,6 +177,168 @@ Proof.
            (rt_global_all_ok c links s H1 H2 H3 H4)).
 Qed.
 Print Assumptions C11_global_trees.
+
+(* ================= UNBOUNDED: chains of ARBITRARY depth (no bound on depth, steps, names, links) =================
+   rt_chain_wf c: zone 0 is the top, zone z+1 the child of zone z, no global zone, at most two endpoints per zone (the
+   property's bound), every endpoint in one zone; endpoint names arbitrary.  links: ANY list of pairs (rt_view makes
+   connectivity symmetric - a TCP connection has two ends).  Every target zone, every originator (also below the
+   target), every per-node iteration order, every run of the relation. *)
+
+(* the two endpoints of a zone that see each other elect the same master (needs <= 2 endpoints + symmetry) *)
+Theorem C11_master_agree : forall c z links a b,
+  (forall e, In e (rt_eps c z) -> e = a \/ e = b) ->
+  In a (rt_eps c z) -> In b (rt_eps c z) -> In b (rt_view links a) ->
+  rt_master c z a (rt_view links a) = rt_master c z b (rt_view links b).
+Proof. exact rt_master_agree. Qed.
+Print Assumptions C11_master_agree.
+
+(* the invariant and the measure: in-flight messages are well-formed and the future sets (rt_fut) of the in-flight
+   messages and the processed set are pairwise disjoint; every delivery processes at a fresh endpoint, preserves the
+   invariant and strictly decreases rt_chain_measure = total size of the future sets *)
+Theorem C11_chain_inv_step : forall c links T nord,
+  rt_chain_wf c -> T < length c -> rt_nord_ok c nord ->
+  forall st np st', rt_chain_inv c links T st -> rt_sched_step rt_msg (rt_effect c links T nord) st np st' ->
+    rt_fresh np (snd st) = true /\ rt_chain_inv c links T st' /\ rt_chain_measure c links T st' < rt_chain_measure c links T st.
+Proof. exact rt_chain_inv_step. Qed.
+Print Assumptions C11_chain_inv_step.
+
+(* (a)+(b): every run from the originating relay has fewer deliveries than there are endpoints (hence fewer than
+   rt_fuel c), and no delivery makes an endpoint process the event a second time *)
+Theorem C11_finite_once_unbounded : forall c links target s lz nord,
+  rt_chain_wf c -> target < length c -> rt_zone_of c s = Some lz -> rt_nord_ok c nord ->
+  forall k st', rt_sched_run rt_msg (rt_effect c links target nord) (rt_init c links target nord s lz) k st' ->
+    k < length (flat_map rt_zeps c) /\ k < rt_fuel c /\
+    (forall np st'', rt_sched_step rt_msg (rt_effect c links target nord) st' np st'' -> rt_fresh np (snd st') = true).
+Proof. exact rt_chain_finite_once_run. Qed.
+Print Assumptions C11_finite_once_unbounded.
+
+(* (c): whenever such a run has nothing in flight any more, the originator is in an entitled zone and the connectivity
+   premise holds over the entitled zones, every endpoint of every entitled zone has processed the event
+   (rt_final_complete) - exactly once by C11_finite_once_unbounded *)
+Theorem C11_complete_unbounded : forall c links target nord s lz,
+  rt_chain_wf c -> target < length c -> rt_nord_ok c nord -> rt_zone_of c s = Some lz ->
+  forall k st', rt_sched_run rt_msg (rt_effect c links target nord) (rt_init c links target nord s lz) k st' ->
+    fst st' = [] -> rt_final_complete c links target lz (snd st') = true.
+Proof. exact rt_chain_complete. Qed.
+Print Assumptions C11_complete_unbounded.
+
+(* non-vacuity: the chain of depth 6 with two endpoints everywhere satisfies rt_chain_wf and, fully connected, the
+   premise; the exploration evaluated by the kernel on it (originator = non-master endpoint of the bottom zone,
+   target = bottom zone; and target = zone 3 from zone 2) agrees with the theorems: all 12 (resp. 8) entitled
+   endpoints process, once *)
+Example C11_unbounded_nonvacuous :
+  let c := rt_mk_cfg (rt_chain_parents 6) [2; 2; 2; 2; 2; 2] in
+  let links := rt_related_pairs c in
+  rt_chain_wf c /\ rt_zone_of c 12 = Some 5 /\
+  rt_premise c links (rt_entitled_zones c 5 5) = true /\
+  rt_run_ok c links 5 12 (fun p => (length p =? 12) && forallb (fun e => rt_mem e p) (seq 1 12)) = true /\
+  rt_run_ok c links 3 6 (fun p => (length p =? 8) && forallb (fun e => rt_mem e p) (seq 1 8)) = true.
+Proof.
+  split; [apply rt_chain_wf_b_spec; vm_compute; reflexivity|].
+  vm_compute. repeat split.
+Qed.
+
+(* ================= UNBOUNDED: GLOBAL target zone on zone trees of ARBITRARY depth and width =================
+   rt_tree_wf c: acyclic forest (parents carry smaller numbers), global zones isolated (no parent, no children), at most
+   two endpoints per zone, every endpoint in one zone; any number of children per zone, any depth, arbitrary names.
+   G: any global zone.  Every link set, every originator, every per-node iteration order, every run. *)
+Theorem C11_tree_inv_step : forall c links G nord,
+  rt_tree_wf c -> rt_global c G = true -> rt_nord_ok c nord ->
+  forall st np st', rt_tree_inv c links st -> rt_sched_step rt_msg (rt_effect c links G nord) st np st' ->
+    rt_fresh np (snd st) = true /\ rt_tree_inv c links st' /\ rt_tree_measure c links st' < rt_tree_measure c links st.
+Proof. exact rt_tree_inv_step. Qed.
+Print Assumptions C11_tree_inv_step.
+
+Theorem C11_global_finite_once_unbounded : forall c links G s lz nord,
+  rt_tree_wf c -> rt_global c G = true -> rt_zone_of c s = Some lz -> rt_nord_ok c nord ->
+  forall k st', rt_sched_run rt_msg (rt_effect c links G nord) (rt_init c links G nord s lz) k st' ->
+    k < length (flat_map rt_zeps c) /\ k < rt_fuel c /\
+    (forall np st'', rt_sched_step rt_msg (rt_effect c links G nord) st' np st'' -> rt_fresh np (snd st') = true).
+Proof. exact rt_tree_finite_once_run. Qed.
+Print Assumptions C11_global_finite_once_unbounded.
+
+(* entitled zones of a global target: the originating zone and everything below it (rt_entitled_zones) *)
+Theorem C11_global_complete_unbounded : forall c links G nord s lz,
+  rt_tree_wf c -> rt_global c G = true -> rt_nord_ok c nord -> rt_zone_of c s = Some lz ->
+  forall k st', rt_sched_run rt_msg (rt_effect c links G nord) (rt_init c links G nord s lz) k st' ->
+    fst st' = [] -> rt_final_complete c links G lz (snd st') = true.
+Proof. exact rt_tree_complete. Qed.
+Print Assumptions C11_global_complete_unbounded.
+
+(* non-vacuity: the full binary tree of depth 3 with two endpoints everywhere plus a global zone - 31 directly related
+   endpoint pairs, 2^31 link sets, the member of rt_global_trees that the bounded sweep (<= 10 pairs) cannot reach -
+   satisfies rt_tree_wf and, fully connected, the premise; the exploration evaluated on it (originator = non-master
+   endpoint of the root zone: all 14 endpoints; originator in a leaf zone: its two endpoints) agrees *)
+Example C11_global_unbounded_nonvacuous :
+  let c := rt_mk_cfg (rt_tree_parents [2; 2]) [2; 2; 2; 2; 2; 2; 2] ++ [rt_gzone] in
+  let links := rt_related_pairs c in
+  rt_tree_wf c /\ rt_global c 7 = true /\ length links = 31 /\ In c rt_global_trees /\
+  rt_premise c links (rt_entitled_zones c 7 0) = true /\
+  rt_run_ok c links 7 2 (fun p => (length p =? 14) && forallb (fun e => rt_mem e p) (seq 1 14)) = true /\
+  rt_run_ok c links 7 8 (fun p => (length p =? 2) && forallb (fun e => rt_mem e p) [7; 8]) = true.
+Proof.
+  split; [apply rt_tree_wf_b_spec; vm_compute; reflexivity|].
+  split; [reflexivity|]. split; [reflexivity|].
+  split; [|vm_compute; repeat split].
+  unfold rt_global_trees. apply in_flat_map. exists [2; 2]. split; [vm_compute; tauto|].
+  apply in_map_iff. exists [2; 2; 2; 2; 2; 2; 2]. split; [reflexivity|]. vm_compute. tauto.
+Qed.
+
+(* ================= UNBOUNDED: NON-GLOBAL target zone on zone trees of ARBITRARY depth and width =================
+   The chain theorems generalised to every tree (rt_tree_wf c as above; side branches, any number of children) and
+   every non-global target zone: entitled zones = the target's line (the target zone and its ancestors); originators on
+   the line, below it or in a side branch.  Together with C11_global_*_unbounded: EVERY well-formed zone forest, EVERY
+   target. *)
+Theorem C11_line_inv_step : forall c links T nord,
+  rt_tree_wf c -> rt_global c T = false -> rt_nord_ok c nord ->
+  forall st np st', rt_line_inv c links T st -> rt_sched_step rt_msg (rt_effect c links T nord) st np st' ->
+    rt_fresh np (snd st) = true /\ rt_line_inv c links T st' /\ rt_line_measure c links T st' < rt_line_measure c links T st.
+Proof. exact rt_line_inv_step. Qed.
+Print Assumptions C11_line_inv_step.
+
+Theorem C11_tree_finite_once_unbounded : forall c links T s lz nord,
+  rt_tree_wf c -> rt_global c T = false -> rt_zone_of c s = Some lz -> rt_nord_ok c nord ->
+  forall k st', rt_sched_run rt_msg (rt_effect c links T nord) (rt_init c links T nord s lz) k st' ->
+    k < length (flat_map rt_zeps c) /\ k < rt_fuel c /\
+    (forall np st'', rt_sched_step rt_msg (rt_effect c links T nord) st' np st'' -> rt_fresh np (snd st') = true).
+Proof. exact rt_line_finite_once_run. Qed.
+Print Assumptions C11_tree_finite_once_unbounded.
+
+Theorem C11_tree_complete_unbounded : forall c links T nord s lz,
+  rt_tree_wf c -> rt_global c T = false -> rt_nord_ok c nord -> rt_zone_of c s = Some lz ->
+  forall k st', rt_sched_run rt_msg (rt_effect c links T nord) (rt_init c links T nord s lz) k st' ->
+    fst st' = [] -> rt_final_complete c links T lz (snd st') = true.
+Proof. exact rt_line_complete. Qed.
+Print Assumptions C11_tree_complete_unbounded.
+
+(* non-vacuity: the full binary tree of depth 3 (two endpoints everywhere), target = a leaf zone (zone 3, line 3-1-0):
+   from the non-master endpoint of the root all six endpoints of the line process once; an event originating in the
+   side branch (zone 2) or below a sibling (zone 4) is discarded at the first hop *)
+Example C11_tree_unbounded_nonvacuous :
+  let c := rt_mk_cfg (rt_tree_parents [2; 2]) [2; 2; 2; 2; 2; 2; 2] ++ [rt_gzone] in
+  let links := rt_related_pairs c in
+  rt_tree_wf c /\ rt_global c 3 = false /\ rt_entitled_zones c 3 0 = [3; 1; 0] /\
+  rt_premise c links (rt_entitled_zones c 3 0) = true /\
+  rt_run_ok c links 3 2 (fun p => (length p =? 6) && forallb (fun e => rt_mem e p) [1; 2; 3; 4; 7; 8]) = true /\
+  rt_run_ok c links 3 5 (fun p => length p =? 1) = true /\
+  rt_run_ok c links 3 9 (fun p => length p =? 1) = true.
+Proof.
+  split; [apply rt_tree_wf_b_spec; vm_compute; reflexivity|].
+  vm_compute. repeat split.
+Qed.
+
+(* the executable NETWORK-level check run over complete multi-hop runs of the real code (op rt_net: number of
+   deliveries, endpoints that processed) accepts every complete run of the model's network relation - any schedule, any
+   per-node iteration order, any link set, any originator - on every well-formed zone forest and every target
+   (rt_net_pre_b = rt_tree_wf_b and target in range; outside it claims nothing): nobody twice, fewer deliveries than endpoints, complete under the
+   premise *)
+Theorem C11_net_oracle_accepts_model : forall c links target s lz nord k st',
+  rt_zone_of c s = Some lz -> rt_nord_ok c nord ->
+  rt_sched_run rt_msg (rt_effect c links target nord) (rt_init c links target nord s lz) k st' ->
+  fst st' = [] ->
+  rt_net_oracle c links target s k (snd st') = 0.
+Proof. exact rt_net_oracle_accepts. Qed.
+Print Assumptions C11_net_oracle_accepts_model.
 
 (* non-vacuity: the 2/2/2 chain, fully connected, event about an object of the bottom zone originating at its
    non-master endpoint: premise holds, all six endpoints process exactly once; and a step that persists *)
